@@ -13,10 +13,13 @@
          is / and bit_offset is % by the same element_bits; set uses |= mask, clear uses &= ~mask
 Declined: numeric correctness of the masks beyond shift range (C01/C06 G).
 """
+import os
 import re
 
 from engine import facts as F
 from engine import load
+from engine import plumbing as P
+from engine import witness as W
 from engine import lrules as L
 from engine import regions as RG
 from engine import terms as T
@@ -79,7 +82,34 @@ def enum_size(db, enum_qn):
 
 
 def main(rep, tier, only):
-    db = load.load(tier, lib=False, drivers=["drv_containers"])
+    rep.rule("W-words", "the storage array of a bitfield over N enumerators with B-bit words has exactly ceil(N / B) words "
+                        "(type equality; a spare word would be complemented by operator~ without being masked)", floor=60)
+    if only in (None, "W-words"):
+        path = os.path.join(P.VERIF, "witness", "c10_bitfield.cpp")
+        wits, fails = W.run_witness_file(P.cache_dir(), path)
+        if None in fails:
+            rep.broken("witness TU c10_bitfield.cpp has unattributed diagnostics: " + fails[None][0]["msg"])
+        for (wid, text, a, z) in wits:
+            site = "verif:witness/c10_bitfield.cpp:%d" % a
+            if wid in fails:
+                f = fails[wid]
+                lib = next((x["lib_site"] for x in f if x["lib_site"]), None)
+                rep.fail("W-words", wid, lib or "libs/core/include/fcppt/container/bitfield/array_fwd.hpp:1:1", text,
+                         why="type equality does not hold: " + f[0]["msg"])
+            else:
+                rep.ok("W-words", wid, site, text, how="compiles")
+    try:
+        db = load.load(tier, lib=False, drivers=["drv_containers"])
+    except P.AnalysisBroken as e:
+        if rep.viol:
+            # the driver instantiates members (underlying_value of a one-word field) that become ill-formed when the
+            # storage geometry is wrong: exactly what the failing witnesses above report
+            rep.note("structural rules skipped: %s" % e)
+            for r in ("PAD", "MIRROR", "ADDR"):
+                if r in rep.rules:
+                    rep.rules[r]["floor"] = 0
+            return
+        raise
     rep.extra.update(db.stats())
     rep.rule("PAD", "every operation that builds or mutates a bitfield leaves the unused bits of the last word zero "
                     "(word-wise |,&,^ preserve it; ~ must be followed by the exact last-word mask)", floor=20)
